@@ -11,7 +11,7 @@ from . import core as C
 
 ENGINES = {
     "e1_txn": ["{}", '{"no_faults": true}'],
-    "e2_history": ["{}", '{"faults": true}', '{"chains": true}', '{"generated": true}'],
+    "e2_history": ["{}", '{"faults": true}', '{"chains": true}', '{"generated": true}', '{"trees": true}'],
     "e3_pool": ['{"profile": "base", "schedules": 2}', '{"profile": "stagefault", "schedules": 1}', '{"profile": "converge", "schedules": 1}'],
     "e5_optout": ["{}"],
     "e4_layout": ['{"ops": 6}'],
